@@ -269,12 +269,17 @@ pub fn panic_msg(e: Box<dyn std::any::Any + Send>) -> String {
 /// Runs one scenario; returns number of events written.
 /// The configuration as the specification sees it (Begin.norm, Reset.norm).
 fn norm_json(cfg: &Cfg) -> Value {
+    use chrono::Offset;
+    let utcoff = chrono::Local::now().offset().fix().local_minus_utc();
     json!({"naming": cfg.naming, "rot": cfg.rot, "size": cfg.size, "age": cfg.age, "k": cfg.k, "m": cfg.m,
         "clean": cfg.clean(), "mode": cfg.mode, "cap": cfg.cap as i64, "le": cfg.le().len(),
         "direct": cfg.cur.is_empty() && cfg.rot, "bg": cfg.bg, "fmt": cfg.fmt, "link": cfg.link,
         "append": cfg.append, "via": cfg.via, "suffix": cfg.suffix.clone().unwrap_or_default(),
         "has_suffix": cfg.suffix.is_some(), "basename": cfg.basename, "discr": cfg.discr.clone().unwrap_or_default(),
-        "has_discr": cfg.discr.is_some(), "use_ts": cfg.use_ts, "cur": cfg.cur, "subdir": cfg.subdir})
+        "has_discr": cfg.discr.is_some(), "use_ts": cfg.use_ts, "cur": cfg.cur, "subdir": cfg.subdir,
+        // use_utc() of the FileLogWriter builder: infixes are rendered in UTC; offset of the (fixed-offset) local zone
+        "utc": cfg.utc && cfg.via == "flw",
+        "utcoff": utcoff})
 }
 
 pub fn run_scenario(sc: &Value, ex: &mut Exec) -> usize {
@@ -335,6 +340,8 @@ pub fn run_scenario(sc: &Value, ex: &mut Exec) -> usize {
     }
     // is the scenario inside the domain of the conform-mode trace specification (TraceFlw.tla)?
     begin["conf"] = json!(sc.get("conf").and_then(|v| v.as_bool()).unwrap_or(false));
+    // the time zone of this process (the shards of C09 run under different zones; a replay uses the same one)
+    begin["tz"] = json!(std::env::var("TZ").unwrap_or_default());
     if !resume {
         emit(ex, begin);
     } else {
